@@ -213,6 +213,11 @@ impl Searcher {
             }
         }
 
+        // A node cut short by the clock has no complete result: it must not be cached as if it had one
+        if self.timer.should_stop() {
+            return best_result;
+        }
+
         let bound = self.determine_bound(best_result.score, original_alpha, beta);
         self.store_in_transposition_table(board, &best_result, depth, bound);
 
